@@ -32,6 +32,14 @@ impl Tier {
 
 /// log2 of the number of bits in the distinct-case bitmap.
 pub const BITMAP_LOG2: u32 = 27;
+/// thorough runs judge up to ~10^9 cases; a larger bitmap keeps the lower bound meaningful
+pub const BITMAP_LOG2_THOROUGH: u32 = 30;
+pub fn bitmap_log2(tier: Tier) -> u32 {
+    match tier {
+        Tier::Quick => BITMAP_LOG2,
+        Tier::Thorough => BITMAP_LOG2_THOROUGH,
+    }
+}
 
 pub struct Ctx {
     pub prop: String,
@@ -74,7 +82,7 @@ impl Ctx {
             layer: "primary".into(),
             counters: BTreeMap::new(),
             evaluations: 0,
-            bitmap: vec![0u64; 1usize << (BITMAP_LOG2 - 6)],
+            bitmap: vec![0u64; 1usize << (bitmap_log2(tier) - 6)],
             samples: Vec::new(),
             sample_seen: 0,
             sample_rng: Rng::derive(seed, prop, shard, 0x5A),
@@ -140,7 +148,7 @@ impl Ctx {
         self.evaluations += 1;
         self.tick.fetch_add(1, std::sync::atomic::Ordering::Relaxed);
         if nontrivial && self.bitmap.len() > 1 {
-            let bit = hash >> (64 - BITMAP_LOG2);
+            let bit = hash >> (64 - bitmap_log2(self.tier));
             self.bitmap[(bit >> 6) as usize] |= 1u64 << (bit & 63);
         }
     }
